@@ -205,6 +205,9 @@ def instantiation_matrix(rng, quick):
         decls += ('Die Funktion art%d mit dem Parameter x vom Typ %s, gibt nichts zurück, macht:\n\tSchreibe "%s" auf eine Zeile.\nUnd kann so benutzt werden:\n\t"art <x>"\n\n' % (i, t, tag))
     decls += ('Die generische Funktion kennung mit dem Parameter a vom Typ T, gibt nichts zurück, macht:\n\tart a.\nUnd kann so benutzt werden:\n\t"kennung <a>"\n\n'
               'Die generische Funktion doppelt mit den Parametern a und b vom Typ T und R, gibt nichts zurück, macht:\n\tart a.\n\tart b.\nUnd kann so benutzt werden:\n\t"doppelt <a> <b>"\n\n')
+    # bodies that name the type parameter themselves (a local of type T, a call of another generic function with it)
+    decls += ('Die generische Funktion behalten mit dem Parameter a vom Typ T, gibt ein T zurück, macht:\n\tDas T lokal ist a.\n\tGib lokal zurück.\nUnd kann so benutzt werden:\n\t"behalten <a>"\n\n'
+              'Die generische Funktion weiter mit dem Parameter a vom Typ T, gibt nichts zurück, macht:\n\tDas T innen ist behalten a.\n\tkennung innen.\nUnd kann so benutzt werden:\n\t"weiter <a>"\n\n')
     vars_ = "".join("%s %s var%d ist %s.\n" % ({"Zahl": "Die", "Kommazahl": "Die", "Zahlen Liste": "Die", "Text Liste": "Die", "Hausnummer": "Die", "Postleitzahl": "Die",
                                                   "Strecke": "Die"}.get(t, "Der"), t, i, e.strip("()") if t in ("Zahlen Liste", "Text Liste") else e) for i, (t, e, _) in enumerate(pool))
     orders = [list(range(len(pool))), list(reversed(range(len(pool))))]
@@ -215,6 +218,9 @@ def instantiation_matrix(rng, quick):
         body, exp = "", ""
         for i in order:
             body += "kennung var%d.\n" % i
+            exp += pool[i][2] + "\n"
+        for i in (order if oi % 2 == 0 else reversed(order)):
+            body += "weiter var%d.\n" % i
             exp += pool[i][2] + "\n"
         for i, j in zip(order, order[1:]):
             body += "doppelt var%d var%d.\n" % (i, j)
